@@ -293,6 +293,52 @@ func checkCopy(e *Env, r *cliRunner, c *CliCase) {
 				}
 			}
 		}
+		// the same command value executed again later: with the default window a
+		// point that reached the source meanwhile must be copied too (no state
+		// may be carried from one Execute to the next)
+		if !c.Cmd.HasUntil && !c.Cmd.HasFrom && res.built != nil && c.SchedSeed%3 == 0 {
+			step0 := srcs[pairs[0][0]].Layout.Archs[0].S
+			Advance(e, step0+int64(c.SchedSeed%5))
+			now2 := Now()
+			for _, p := range pairs {
+				db, err := wt.Open(filepath.Join(e.Dir, "src", p[0]), wt.WithoutFlock())
+				if err != nil {
+					return
+				}
+				db.UpdatePointsForArchive([]wt.Point{{Time: wt.Timestamp(now2), Value: 4242.5}}, 0, wt.Timestamp(now2))
+				db.Sync()
+				db.Close()
+			}
+			res3 := r.rerun(res, "copy3")
+			if len(res3.panics) > 0 || res3.aborted {
+				return
+			}
+			if res3.err != nil {
+				e.Violate("C08.copy-fails", "executing the same copy command value again %d s later failed: %v", now2-now, res3.err)
+				return
+			}
+			for _, p := range pairs {
+				sv, err1 := viewFile(filepath.Join(e.Dir, "src", p[0]), 0, now2, now2)
+				dv, err2 := viewFile(filepath.Join(e.Dir, "dst", p[1]), 0, now2, now2)
+				if err1 != nil || err2 != nil {
+					return
+				}
+				for _, a := range sel {
+					sa, da := sv.series[a], dv.series[a]
+					if sa == nil || da == nil || len(sa.vals) != len(da.vals) {
+						continue
+					}
+					for i, v := range sa.vals {
+						if !math.IsNaN(v) && !model.SameValue(da.vals[i], v) {
+							e.Violate("C08.equal", "file %s archive %d slot %s: the same command value executed again %d s later (default window) left the destination at %v where the source holds %v",
+								p[0], a, relAge(now2, sa.from+int64(i)*sa.step), now2-now, da.vals[i], v)
+							return
+						}
+					}
+				}
+			}
+			e.Probe("command-value-executed-again-later")
+		}
 	}
 }
 
